@@ -2,7 +2,11 @@
 
 Pipeline per case (value tree of one of the 169 containers):
   Go worker   : rt <tree>, json <tree>            (harness/llrp/codec_test.go, TestVerifCodec)
+                tojson <tree>  (C01)              the text json.Marshal produces, verbatim
   oracle      : rt <tree>                         (build/oracle_codec, extracted from coq/Codec)
+                tojson <tree>, jsonrt <tree> (C01) Codec/Json.v: to_json as canonical text, of_json (to_json v)
+  python      : (C01) Go's JSON text parsed by python's own json module (member order kept, integers exact)
+                and printed in the oracle's canonical form; compared with the model's to_json
   python      : independent walk of Go's bytes as a TLV/TV stream using only spec/llrp_layout.json
   Go worker   : dec <cid> <reference bytes>       (only where Go's bytes differ from the reference)
 The predicates of C01 / C02 are evaluated on Go's observed behaviour; the oracle comparison is a
@@ -258,6 +262,111 @@ def first_diff(a, b):
     return n if len(a) != len(b) else -1
 
 
+# ---------------------------------------------------------------- JSON text -> canonical form
+# canonical form (the same the oracle prints for Json.to_json): null true false; integers in decimal;
+# strings as "<hex of the UTF-8 bytes>"; [a,b]; {Name:value,...} member names bare, document order.
+class _JObj(list):
+    pass
+
+
+def _jfloat(s):
+    return ("float", s)
+
+
+def canon_json(text):
+    """Go's JSON text -> canonical form, using python's json parser (independent of encoding/json)"""
+    doc = json.loads(text, object_pairs_hook=_JObj, parse_float=_jfloat, parse_constant=_jfloat)
+    out = []
+
+    def rec(x):
+        if x is None:
+            out.append("null")
+        elif x is True:
+            out.append("true")
+        elif x is False:
+            out.append("false")
+        elif isinstance(x, int):
+            out.append(str(x))
+        elif isinstance(x, str):
+            out.append('"' + x.encode("utf-8", "surrogatepass").hex() + '"')
+        elif isinstance(x, _JObj):
+            out.append("{")
+            for i, (k, v) in enumerate(x):
+                if i:
+                    out.append(",")
+                out.append(k)
+                out.append(":")
+                rec(v)
+            out.append("}")
+        elif isinstance(x, list):
+            out.append("[")
+            for i, v in enumerate(x):
+                if i:
+                    out.append(",")
+                rec(v)
+            out.append("]")
+        else:
+            out.append("<%s %s>" % x)       # a number that is not an integer
+    rec(doc)
+    return "".join(out)
+
+
+def _ctx(a, k, w=40):
+    return a[max(0, k - w):k + w]
+
+
+def json_correspondence(L, cs, nm, g_json, g_tojson, o_rt, o_tojson, o_jsonrt, o, F):
+    """C01, JSON clause, correspondence step: Go's JSON text == the model's to_json (canonical form), and
+    Go's Marshal/Unmarshal result == the model's of_json (to_json v).  Never decides the property itself
+    (that is step 1, on Go alone): every finding here is `no-failing-input-found`."""
+    ost = o_tojson.split(" ", 1) if o_tojson else ["none"]
+    if ost[0] not in ("ok", "badtext") or len(ost) != 2:
+        o["json_model"] = ost[0]
+        F(Finding("oracle-rejects-json:" + nm, "the JSON model has no answer (%s) for this value" % (o_tojson or "")[:60], False))
+        return
+    # in the domain of C01_json_roundtrip: wfvb (first word of the oracle's `rt` answer) and text_ok
+    indom = ost[0] == "ok" and (o_rt or "").startswith("ok ")
+    o["json_model"] = "ok" if indom else "nodom"
+    if cs["wf"] and cs["utf8"] and ost[0] != "ok":
+        F(Finding("oracle-rejects-json:" + nm, "the model finds invalid UTF-8 in a text field the generator calls valid", False))
+    if g_tojson.startswith("ok "):
+        try:
+            text = bytes.fromhex(g_tojson[3:]).decode("utf-8")
+            canon = canon_json(text)
+        except Exception as e:
+            text, canon = "", "<Go's JSON text is not readable by an independent parser: %r>" % (e,)
+        if canon == ost[1]:
+            o["json_text"] = "equal"
+        else:
+            o["json_text"] = "differ"
+            k = first_diff(canon, ost[1])
+            F(Finding("corr-json:" + nm, "%s: the JSON text json.Marshal produces is not the model's to_json (canonical form, offset %d): go=…%s… model=…%s… (strings shown as hex) — "
+                      "the JSON model no longer corresponds to the code" % (nm, k, _ctx(canon, k), _ctx(ost[1], k)), False,
+                      dict(go_json=text[:2000])))
+    elif not g_tojson.startswith("skipped"):
+        o["json_text"] = "differ"
+        F(Finding("corr-json:" + nm, "%s: json.Marshal fails (%s) where the model's to_json gives a value" % (nm, g_tojson[:40]), False))
+    jst = o_jsonrt.split(" ", 1) if o_jsonrt else ["none"]
+    if jst[0] in ("ok", "badtext") and len(jst) == 2:
+        if indom and jst[1] != cs["tree"]:
+            F(Finding("oracle-self-json:" + nm, "the extracted JSON model does not round-trip a value of the theorem's domain", False))
+        if g_json.startswith("ok "):
+            if g_json[3:] == jst[1]:
+                o["json_rt"] = "equal"
+            else:
+                o["json_rt"] = "differ"
+                try:
+                    path = tree_diff(L, L.by_cid[cs["cid"]], G.parse(jst[1]), G.parse(g_json[3:]))
+                except Exception:
+                    path = "<unparsable>"
+                F(Finding("corr-jsonrt:" + nm, "%s: json.Unmarshal(json.Marshal(v)) is not the model's of_json(to_json v) (first difference at %s)" % (nm, path), False))
+        elif not g_json.startswith("skipped"):
+            o["json_rt"] = "differ"
+            F(Finding("corr-jsonrt:" + nm, "%s: Go's JSON round trip fails (%s) where the model's succeeds" % (nm, g_json[:40]), False))
+    else:
+        F(Finding("oracle-rejects-json:" + nm, "the JSON model's of_json rejects its own to_json (%s)" % (o_jsonrt or "")[:60], False))
+
+
 # ---------------------------------------------------------------- workers
 def _chunks(reqs, n):
     """split into n contiguous shards of roughly equal text size"""
@@ -430,12 +539,29 @@ def evaluate(L, W, cases, pid, use_oracle=True):
     Step 1 (Go alone): rt + json, C01's predicates; for C02 the independent table-driven walk of Go's bytes.
     Step 2 (correspondence): Go's bytes vs the extracted model's; Go's decoder on the model's bytes."""
     n = len(cases)
+    is01 = pid == "C01"
+    stride = 3 if is01 else 2
     reqs = []
     for cs in cases:
         reqs.append("rt " + cs["tree"])
-        reqs.append("json " + cs["tree"] if pid == "C01" else "enc " + cs["tree"])
+        reqs.append("json " + cs["tree"] if is01 else "enc " + cs["tree"])
+        if is01:
+            reqs.append("tojson " + cs["tree"])
     go = W.go(reqs)
-    orc = W.oracle(["rt " + cs["tree"] for cs in cases]) if (use_oracle and W.oracle_ok) else [None] * n
+    orc, ojs, ojrt = [None] * n, [None] * n, [None] * n
+    if use_oracle and W.oracle_ok:
+        if is01:
+            # one request per case (the oracle parses the tree once): rt, tojson, jsonrt answers, tab-separated
+            orc, ojs, ojrt = [], [], []
+            for a in W.oracle(["c01 " + cs["tree"] for cs in cases]):
+                parts = a.split("\t")
+                if len(parts) != 3:
+                    parts = [a, a, a]
+                orc.append(parts[0])
+                ojs.append(parts[1])
+                ojrt.append(parts[2])
+        else:
+            orc = W.oracle(["rt " + cs["tree"] for cs in cases])
     findings = [[] for _ in range(n)]
     obs = [dict() for _ in range(n)]
     need_dec = []       # (case index, conformant encoding to feed Go's decoder)
@@ -443,16 +569,21 @@ def evaluate(L, W, cases, pid, use_oracle=True):
         c = L.by_cid[cs["cid"]]
         nm = cs["name"]
         F = findings[i].append
-        g_rt, g_2 = go[2 * i], go[2 * i + 1]
+        g_rt, g_2 = go[stride * i], go[stride * i + 1]
+        g_3 = go[stride * i + 2] if is01 else ""
         st, ghex, gtree, ghex2 = split_rt(g_rt)
         o = obs[i]
         o["go"] = st
-        if st == "skipped" or g_2 == "skipped":
+        if st == "skipped" or g_2 == "skipped" or g_3 == "skipped":
             o["go"] = "skipped"
             continue
-        if st == "bad" or g_2.startswith("bad"):
+        if st == "bad" or g_2.startswith("bad") or g_3.startswith("bad"):
             F(Finding("harness-bad-request:" + nm, "the Go worker rejected a generated tree: %s / %s" % (g_rt[:200], g_2[:200]), False))
             continue
+        # ---- C01, JSON clause: correspondence of the JSON model with encoding/json (all cases: the
+        # JSON model's domain does not depend on encoded sizes / exclusive groups / required lists)
+        if is01 and ojs[i] is not None:
+            json_correspondence(L, cs, nm, g_2, g_3, orc[i], ojs[i], ojrt[i], o, F)
         # ---- outside the domain: record only
         if not cs["wf"]:
             if st == "ok":
@@ -766,6 +897,12 @@ def run(pid, tier, seed, replay, title_assumptions):
     else:
         vlib.proof_part(res, pid)
     t_proof = time.time() - t_start
+    if pid == "C01":
+        # the JSON view of the table (coq/Codec/JsonTable.v) must be the one generated from the pinned layout
+        rc, _ = vlib.sh(["python3", os.path.join(vlib.ROOT, "tools", "gen_json_table.py"), "--check"], timeout=60)
+        if rc != 0:
+            res.violation("json-table-stale", "coq/Codec/JsonTable.v is not what tools/gen_json_table.py generates from spec/llrp_layout.json",
+                          dict(kind="table", file="coq/Codec/JsonTable.v"), False)
     L = G.Layout()
     W = Workers(pid)
     if not W.build(res):
@@ -886,6 +1023,18 @@ def run(pid, tier, seed, replay, title_assumptions):
         skipped_after_hangs=sum(1 for o in obs if o.get("go") == "skipped"),
         oracle_compared=sum(1 for o in obs if o.get("oracle") == "ok"),
         bytes_equal_to_reference=sum(1 for cs, o in zip(cases, obs) if cs["wf"] and o.get("oracle") == "ok" and o.get("go") == "ok" and "bytes_differ" not in o),
+        **(dict(json_clause=dict(
+            json_text_compared=sum(1 for o in obs if "json_text" in o),
+            json_text_equal_to_model=sum(1 for o in obs if o.get("json_text") == "equal"),
+            json_roundtrip_compared=sum(1 for o in obs if "json_rt" in o),
+            json_roundtrip_equal_to_model=sum(1 for o in obs if o.get("json_rt") == "equal"),
+            in_domain_of_json_theorem=sum(1 for o in obs if o.get("json_model") == "ok"),
+            outside_domain_compared=sum(1 for cs, o in zip(cases, obs) if o.get("json_model") == "nodom" and "json_text" in o),
+            invalid_utf8_text_compared=sum(1 for cs, o in zip(cases, obs) if not cs["utf8"] and "json_text" in o),
+            go_json_roundtrip_judged=sum(1 for cs, o in zip(cases, obs) if cs["wf"] and cs["utf8"] and o.get("go") not in (None, "skipped")),
+            note="json_text: json.Marshal's text, parsed by python's json module and printed canonically, vs Json.to_json; "
+                 "json_roundtrip: json.Unmarshal(json.Marshal v) vs Json.of_json (Json.to_json v), also where invalid UTF-8 is replaced by U+FFFD",
+        )) if pid == "C01" else {}),
         trusted_base=res.assumptions,
         timing=dict(proof_s=round(t_proof, 1), generate_s=round(t_gen, 1), evaluate_s=round(t_eval, 1), shrink_s=round(t_shrink, 1),
                     go_worker_s=round(W.go_time, 1), oracle_s=round(W.oracle_time, 1)),
